@@ -89,6 +89,16 @@ def handle (args : List String) : String :=
         let (l, t) := if e.startsWith "l" then (parseItems (e.drop 1).toString, t) else (l, ((e.drop 1).toString.toNat?).getD t)
         (l, t, out ++ [shape l t])) ([], 0, [])
       " | ".intercalate r.2.2
+    else if op == "keyedsel" || op == "indexedsel" then
+      -- the list prop is a derived value returning one of two list signals: the component follows the DISPLAYED list
+      let st := (evs.splitOn ";").foldl (fun (acc : List SycVerif.ListMap.Item × List SycVerif.ListMap.Item × Bool × List (List SycVerif.ListMap.Item)) e =>
+        let (lx, ly, sl, out) := acc
+        let (lx, ly, sl) :=
+          if e.startsWith "x" then (parseItems (e.drop 1).toString, ly, sl)
+          else if e.startsWith "y" then (lx, parseItems (e.drop 1).toString, sl)
+          else (lx, ly, e == "s1")
+        (lx, ly, sl, out ++ [if sl then ly else lx])) ([], [], false, [[]])
+      handleList (op == "keyedsel") st.2.2.2
     else if op == "keyed" then handleList true ((evs.splitOn ";").map parseItems)
     else if op == "indexed" then handleList false ((evs.splitOn ";").map parseItems)
     else "bad-op"
